@@ -22,6 +22,7 @@ def exc : PyExc → Model.PyErr
   | .keyError => .keyError | .typeError => .typeError | .attributeError => .typeError
   | .assertionError => .assertionError | .unicodeError => .unicodeError | .lookupError => .lookupError
   | .zeroDivisionError => .typeError
+  | .stopIteration => .typeError | .fuelExhausted => .typeError
 
 /-- result of translated code read as a result of the model -/
 def toR {α : Type} (x : M α) : Model.R α := x.mapError exc
